@@ -16,6 +16,7 @@ RULE = ("random cases delete atoms / whole residues / both at rates 1-90 % from 
         "group, a backbone atom, or a ligand atom); distinct = distinct truncated texts."
         " 15 % of the truncations run with a parameter file that keeps penalised groups (then no site may be missing from the summary); 30 % carry neutral extra options.")
 RULE = RULE + ' Round 8: 25 % of the truncations also cut records after column 54, 60 or 65.'
+RULE = RULE + " Rounds 11-12: what is left of a truncated library ligand keeps its groups (three bonds clear of the deletion) and a lone nitrogen is an N30 group; every group's centre lies within 4 A of its defining atom; multi-conformation truncations with the completion check (earliest donor)."
 ASSUMPTIONS = ["a truncation that leaves no atom the reader keeps belongs to the reject class"]
 TIMEOUT = {"quick": 1800, "thorough": 14400}
 
